@@ -307,6 +307,24 @@ def check_default_metas():
                 continue
             if not ok:
                 out.append(('roundtrip/repr/default-meta-' + t, 'eval(%r) = %r' % (repr(m), b)))
+    # any str is a legal text, whatever charset some file may be written in later
+    for text in ('\u20ac \u266a', '\u65e5\u672c\u8a9e', 'caf\xe9', '\U0001f3b9', '', ' ', "it's", 'a"b', 'x\ny', '\\'):
+        for t, attr in (('text', 'text'), ('track_name', 'name'), ('lyrics', 'text'), ('marker', 'text')):
+            try:
+                m = mido.MetaMessage(t, time=2, **{attr: text})
+                b = eval_repr(m)
+                c = m.copy(time=5)
+                tr = eval_repr(mido.MidiTrack([m, c]))
+                mid = mido.MidiFile(charset='utf-8')
+                mid.tracks.append(mido.MidiTrack([m]))
+                fb = eval_repr(mid)
+                ok = (b == m and getattr(c, attr) == text and list(tr) == [m, c] and list(fb.tracks[0]) == [m])
+            except Exception as e:
+                out.append(('roundtrip/repr/meta-text/' + t, '%s with text %r: %r' % (t, text, e)))
+                break
+            if not ok:
+                out.append(('roundtrip/repr/meta-text/' + t, 'eval(%r) = %r' % (repr(m), b)))
+                break
     return out[:4]
 
 
